@@ -43,6 +43,11 @@ func gen(t *rapid.T) Case {
 	nobj := 2
 	var lastMWs []int
 	mws := func(max int) []int {
+		if rapid.IntRange(0, 2).Draw(t, "headOfChain") == 0 {
+			// the first j entries of the caller's one chain m0, m1, m2, m3: the harness hands out chain[:j] of a single
+			// array, so the entries behind j are live values another call will pass later
+			return seq(rapid.IntRange(0, max).Draw(t, "chainHead"))
+		}
 		return rapid.SliceOfN(rapid.IntRange(0, 3), 0, max).Draw(t, "mws")
 	}
 	if rapid.IntRange(0, 7).Draw(t, "interiorTemplate") == 0 {
@@ -159,16 +164,36 @@ func eq(a, b []string) bool {
 	return true
 }
 
+func seq(n int) []int {
+	s := make([]int, n)
+	for i := range s {
+		s[i] = i
+	}
+	return s
+}
+
 func check(c Case, st *rig.Stats) error {
 	env := rig.NewEnv()
 	mwName := func(i int) string { return fmt.Sprintf("m%d", i) }
 	mwObjs := map[int]types.Middleware[*rig.H]{}
+	var chain []types.Middleware[*rig.H] // m0..m3 in one array; lists that are a head of it are slices of it
+	for i := 0; i < 4; i++ {
+		mwObjs[i] = env.NewMW(mwName(i))
+		chain = append(chain, mwObjs[i])
+	}
 	// one slice per distinct middleware list, with spare capacity, handed to every call that asks for
 	// that list: what callers do with a shared "common" slice
 	shared := map[string][]types.Middleware[*rig.H]{}
 	sharedNames := map[string][]string{}
 	mk := func(ids []int) ([]types.Middleware[*rig.H], []string) {
 		key := fmt.Sprint(ids)
+		if len(ids) > 0 && len(ids) <= len(chain) && key == fmt.Sprint(seq(len(ids))) {
+			var ns []string
+			for _, i := range ids {
+				ns = append(ns, mwName(i))
+			}
+			return chain[:len(ids)], ns
+		}
 		if ms, ok := shared[key]; ok {
 			return ms, sharedNames[key]
 		}
